@@ -107,6 +107,14 @@ def run(rep, rng, tier):
                     if rel.get(cid) != res["impl"].get(cid):
                         if known_open("C16", l, rel.get(cid) or "", "release"):
                             continue
+                        # the release-profile face of the open finding F5 (shift by 64: a panic in the overflow-checked
+                        # profile, a garbage index in release) on the same input
+                        why_dev = getattr(g, "why", {}).get(cid, "") if lines is g.lines else ""
+                        if res["impl"].get(cid) == "panic" and known_open("C16", l, "panic", why_dev):
+                            k = known_open("C16", l, "panic", why_dev)
+                            if k["what"] not in rep.known:
+                                rep.known.append(k["what"])
+                            continue
                         rep.violation("oracle", {"case": l, "release": rel.get(cid), "dev": res["impl"].get(cid),
                                                  "why": "release and overflow-checked profiles disagree"})
                         break
